@@ -452,6 +452,15 @@ class Logix( Message_Router ):
                 # Write Tag [Fragmented].  We know the type is right.
                 log.detail( "%s Writing %3d elements %3d-%3d into %s: %r",
                             self, end - beg, beg, end-1, attribute, data[context].data )
+                if attribute.parser.tag_type < STRING.tag_type:
+                    # Every value must be representable in the Attribute's own type (eg. UDINT
+                    # 0xFFFFFFFF doesn't fit a DINT); otherwise, it could never be produced again.
+                    try:
+                        for v in data[context].data:
+                            attribute.parser.produce( v )
+                    except Exception:
+                        data.status_ext	= {'size': 1, 'data': [ 0x2107 ]}
+                        raise
                 attribute[beg:end]	= data[context].data
                 data.status		= 0x00
                 data.pop( 'status_ext' )
